@@ -48,7 +48,7 @@ def run_plan(prop, tier, seed, t0, mcs, traces, level, assumptions, rule, tagger
     known = load_known()
     # binding of the INPUT families: what TLC builds from spec/Family.tla = what the harness enumerates (set equality; a
     # disagreement is an error of the machinery, exit 2, never a verdict)
-    fam_results = [family_agreement(prop, n, cfg, fam) for (n, cfg, fam) in famchecks]
+    fam_results = [circuit_family_agreement(prop, *fc[1:]) if fc[0] == "circ" else family_agreement(prop, *fc) for fc in famchecks]
     mc_results, tr_results = [], []
     nviol, nknown = 0, {}
     samples = []
@@ -312,7 +312,8 @@ def plan_C02(prop, tier, seed, t0):
                     "whose measurements carry explicit variables (shared / mixed with fresh ones) and circuits handed over as QASM text with "
                     "measure statements; every translation of a non-empty circuit is non-trivial and decided by "
                     "Den(diagram) = CircSem(circuit) under every outcome assignment in TLC; circuits containing UnknownGate are only recorded"
-                    "; GENERIC: the clause 'to floating-point tolerance' - seeded inputs whose phases are NOT multiples of pi/4 (n/d, d in 3,5,6,7,8,12,16; float-approximate scalars): the harness compares with its independent float reference evaluator (harness/src/refeval.rs, validated entry by entry against the exact Den / CircSem by Trace_Tensor!RefEvalOK in the C08 check) at 1e-9 and logs booleans, TLC judges them")
+                    "; GENERIC: the clause 'to floating-point tolerance' - seeded inputs whose phases are NOT multiples of pi/4 (n/d, d in 3,5,6,7,8,12,16; float-approximate scalars): the harness compares with its independent float reference evaluator (harness/src/refeval.rs, validated entry by entry against the exact Den / CircSem by Trace_Tensor!RefEvalOK in the C08 check) at 1e-9 and logs booleans, TLC judges them",
+                    famchecks=[("circ", "s23", "MC_CircFamily_s23.cfg", "2,3,small")])
 
 
 def plan_C15(prop, tier, seed, t0):
